@@ -537,6 +537,8 @@ class Path(PathDeprecations):
         self._deprecated_kwargs(kwargs)
         self._check_mode(mode)
         self._std_io = False
+        if isinstance(path, str) and "\0" in path:
+            raise PathError(f"Path contains a null byte: {path!r}")
 
         is_url = False
         is_fsspec = False
